@@ -92,6 +92,9 @@ def _add_save(rx, opts, faults):
     if rx.random() < 0.1:
         opts["save_result"] = rx.choice(["csv", "csv", "csv_rounded", "pickle"])
         faults.append({"kind": "result_saved_then_read_again"})
+    elif rx.random() < 0.07:
+        opts["run_again"] = True
+        faults.append({"kind": "second_run_on_the_same_actuator"})
 
 
 def _add_rebinds(rx, program, nb, faults):
@@ -524,6 +527,30 @@ def _save_and_look_again(sim, how):
         shutil.rmtree(d, ignore_errors=True)
 
 
+def _run_again_on_the_same_actuator(sim):
+    """The user trades once outside any run (after run() returned) and calls run() again on the SAME actuator: what the
+    second run delivers to notify() are the records of the second run - every notified action is in that run's action list."""
+    from decimal import Decimal as _D
+
+    n0 = len(sim.events)
+    for m in sim.markets.values():  # one small accepted-or-refused operation between the runs, on the first pool there is
+        if type(m).__name__ == "UniLpMarket":
+            try:
+                m.sell(_D("0.0001"))
+            except Exception:
+                pass
+            break
+    try:
+        sim.actuator.run(print_result=False)
+    except Exception as e:  # what a second run() may refuse is not this check's subject
+        sim.count("probe:second_run_raised:" + type(e).__name__)
+        return
+    sim.count("fault:second_run_on_the_same_actuator")
+    stale = [e for e in sim.events[n0:] if e[1] == "notify" and e[4] == -1]
+    if stale:
+        sim.violate("c05.notify_exactly_once", "second_run:record_from_outside_the_run_notified", n=len(stale), first=stale[0][:4])
+
+
 def execute(scenario):
     if scenario.get("donor"):
         DN.prepare(scenario["donor"])
@@ -542,6 +569,8 @@ def execute(scenario):
         sim.count("fault:frames_not_in_chronological_order")
     if scenario.get("opts", {}).get("save_result") and sim.crash is None:
         _save_and_look_again(sim, scenario["opts"]["save_result"])
+    if scenario.get("opts", {}).get("run_again") and sim.crash is None and not sim.violations:
+        _run_again_on_the_same_actuator(sim)
     if scenario.get("opts", {}).get("second_actuator") and sim.crash is None and not sim.violations:
         # the same market objects attached to a second, fresh Actuator (a notebook that builds a new back test around the
         # markets it already has): that run's records, notifications and rows are that run's
